@@ -356,7 +356,7 @@ def r07_13(ctx):
             if not loops:
                 bad = "ChildrenOnly does not walk the children of the root"
                 continue
-            roots.add(re.sub(r"^self\.0", "N", loops[0]))
+            roots.add(re.sub(r"\.rev\(\)$", "", re.sub(r"^self\.0", "N", loops[0])))
             loops = loops[1:]
         if se and any(a.endswith(".push_front") or a.endswith(".push_back") or a.endswith(".push") for a in names[names.index([a for a in names if a.endswith(".start_elem")][0]):]):
             m = re.match(r"(.*)\.data\.name$", se[0][0])
@@ -369,10 +369,10 @@ def r07_13(ctx):
             if len(own) != 1 or other:
                 bad = "after the start tag of an element the nodes queued are %s, not the element's own children" % (loops[:2],)
                 continue
-            inner.add("N" + own[0][len(node):])
-    ok = bad is None and roots == {"N.children.iter()"} and inner == {"N.children.iter().rev()"}
+            inner.add(re.sub(r"\.rev\(\)$", "", "N" + own[0][len(node):]))
+    ok = bad is None and roots == {"N.children.iter()"} and inner == {"N.children.iter()"}  # the order of the work list is R20's business
     if bad is None and not ok:
-        bad = "the ChildrenOnly root contributes %s, an element inside the tree contributes %s (pushed to the front in reverse): the same element serializes different children as root and as inner node" % (sorted(roots), sorted(inner))
+        bad = "the ChildrenOnly root contributes %s, an element inside the tree contributes %s: the same element serializes different children as root and as inner node" % (sorted(roots), sorted(inner))
     ctx.ob("R07.13", "inner-and-outer-walk-the-same-children", ok, bad or "both the root's and an inner element's contribution are node.children, in order", "rcdom SerializableHandle::serialize")
 
 
